@@ -1,7 +1,7 @@
 // C07: compilation is a deterministic, lossless function of the data file.
 //
 // This package is assembled from independent parts. inputsPart (this file,
-// inputs_small.go, inputs_large.go, hang.go) quantifies over data files and
+// inputs_small.go, inputs_extra.go, inputs_large.go, hang.go) quantifies over data files and
 // compiler settings. Further parts (goroutine schedules of the parallel parser
 // and the batch writers) register themselves from their own file with
 //
@@ -93,7 +93,7 @@ func partNames() []string {
 // inputsPart is the INPUT/CONFIGURATION part of C07.
 func inputsPart(r *vlib.Run) {
 	p := newPool(scratchDir)
-	// C07_DEBUG_PARTS=small,large,hang restricts the run (diagnostics only: the
+	// C07_DEBUG_PARTS=small,extra,large,hang restricts the run (diagnostics only: the
 	// evidence is then marked non-exhaustive).
 	want := func(name string) bool {
 		sel := os.Getenv("C07_DEBUG_PARTS")
@@ -114,20 +114,26 @@ func inputsPart(r *vlib.Run) {
 	}
 	nop := func() {}
 	smallCompute, smallRecord, largeCompute, largeRecord := nop, nop, nop, nop
+	extraCompute, extraRecord := nop, nop
 	if want("small") {
 		smallCompute, smallRecord = smallInputs(r, p)
 	}
 	if want("large") {
 		largeCompute, largeRecord = largeInputs(r, p)
 	}
+	if want("extra") {
+		extraCompute, extraRecord = extraInputs(r, p)
+	}
 	phase("prepare")
 	var wg sync.WaitGroup
-	wg.Add(2)
+	wg.Add(3)
 	go func() { defer wg.Done(); largeCompute() }() // long cells first
 	go func() { defer wg.Done(); smallCompute() }()
+	go func() { defer wg.Done(); extraCompute() }()
 	wg.Wait()
 	phase("compute")
 	smallRecord()
+	extraRecord()
 	largeRecord()
 	phase("record")
 	if hang != nil {
